@@ -212,6 +212,67 @@ class _SetRewriter(ast.NodeTransformer):
         )
 
 
+class _SnapCut(ast.NodeTransformer):
+    """Locates `next_pos != subpath_start and next_pos.almost_equals(subpath_start)`
+    (svg_types._rewrite_path) by AST pattern and routes it through __sx_snap__,
+    which applies the deliberate cut of DESIGN 2 'Pipeline properties' when the
+    harness asks for it (opts['snap_cut']); otherwise the original test runs."""
+
+    def __init__(self):
+        self.count = 0
+
+    def visit_BoolOp(self, node):
+        self.generic_visit(node)
+        if (
+            isinstance(node.op, ast.And)
+            and len(node.values) == 2
+            and isinstance(node.values[0], ast.Compare)
+            and len(node.values[0].ops) == 1
+            and isinstance(node.values[0].ops[0], ast.NotEq)
+            and isinstance(node.values[1], ast.Call)
+            and isinstance(node.values[1].func, ast.Attribute)
+            and node.values[1].func.attr == "almost_equals"
+            and len(node.values[1].args) == 1
+            and ast.dump(node.values[0].left) == ast.dump(node.values[1].func.value)
+            and ast.dump(node.values[0].comparators[0]) == ast.dump(node.values[1].args[0])
+        ):
+            self.count += 1
+            thunk = ast.Lambda(
+                args=ast.arguments(posonlyargs=[], args=[], kwonlyargs=[], kw_defaults=[], defaults=[]),
+                body=node,
+            )
+            return ast.copy_location(
+                ast.Call(
+                    func=ast.Name(id="__sx_snap__", ctx=ast.Load()),
+                    args=[thunk, node.values[0].left, node.values[0].comparators[0]],
+                    keywords=[],
+                ),
+                node,
+            )
+        return node
+
+
+def _sx_snap(thunk, a, b):
+    ctx = C.CUR
+    if ctx is None or not ctx.opts.get("snap_cut"):
+        return thunk()
+    vals = tuple(a) + tuple(b)
+    if not any(isinstance(v, SymReal) for v in vals):
+        return thunk()
+    import z3
+    from .values import term_of
+
+    tol = z3.RealVal("1/1000000000")
+    dx = term_of(a[0]) - term_of(b[0])
+    dy = term_of(a[1]) - term_of(b[1])
+    band = z3.And(
+        z3.Or(dx != 0, dy != 0), dx <= tol, -dx <= tol, dy <= tol, -dy <= tol
+    )
+    ctx._add(z3.Not(band))  # the band 0<|d|<=1e-9 is assumed empty
+    ctx.cuts = getattr(ctx, "cuts", 0) + 1
+    return False
+
+
 class Mods:
     """The privately loaded picosvg modules of one load()."""
 
@@ -219,6 +280,7 @@ class Mods:
         self._prefix = prefix
         self._mods = {}
         self.ast_rewrites = 0
+        self.snap_sites = 0
         self.stubs = []
         self.sources = {}
 
@@ -279,6 +341,7 @@ def load(*, fake_skia=True, lex_placeholders=True, modules=MODULE_ORDER, extra_a
             "set": SxSet,
             "frozenset": SxFrozenSet,
             "__sx_set__": _sx_set,
+            "__sx_snap__": _sx_snap,
             "__import__": sx_import,
         }
     )
@@ -291,6 +354,9 @@ def load(*, fake_skia=True, lex_placeholders=True, modules=MODULE_ORDER, extra_a
         tree = ast.parse(text, filename=path)
         rw = _SetRewriter()
         tree = rw.visit(tree)
+        sc = _SnapCut()
+        tree = sc.visit(tree)
+        mods.snap_sites += sc.count
         if extra_ast is not None:
             tree = extra_ast(name, tree) or tree
         ast.fix_missing_locations(tree)
